@@ -719,6 +719,47 @@ func (w *World) DrawAction(rt *rapid.T, p *Profile) (Action, string) {
 				Action{Op: "advance", D: cd + time.Second}, Action{Op: "scan", Flag: false}, Action{Op: "scan", Flag: true})
 			return Action{Op: "seq", Seq: seq}, "goneTaintedBelowMin"
 		}
+	case "oldestWriteFails": // utilisation calls for tainting while the API server refuses the read or the write of one of the oldest candidates
+		var untainted []string
+		for _, n := range w.GroupNodeNames(g) {
+			if ref.Classify(w.K.Nodes[n]) == ref.Untainted {
+				untainted = append(untainted, n)
+			}
+		}
+		if len(untainted) >= 2 {
+			sort.SliceStable(untainted, func(i, j int) bool {
+				return w.K.Nodes[untainted[i]].CreationTimestamp.Time.Before(w.K.Nodes[untainted[j]].CreationTimestamp.Time)
+			})
+			tp, _ := w.drawTargetPods(rt, g, "zero", "belowL", "midLU", "eqL")
+			x := untainted[rapid.IntRange(0, 1).Draw(rt, "whichOldest")]
+			kind := rapid.SampledFrom([]string{sim.KGet, sim.KUpdate}).Draw(rt, "kind")
+			return Action{Op: "seq", Seq: []Action{tp, {Op: "fault", Faults: []sim.Fault{{Kind: kind, Nth: -1, Node: x}}}, {Op: "scan", Flag: true}}}, "oldestWriteFails"
+		}
+	case "resizeThenDescribeFails": // the cloud accepts a resize and a describe call right after it fails; the group is busy again moments later
+		tp, _ := w.drawTargetPods(rt, g, "aboveS", "farAboveS")
+		tp2, _ := w.drawTargetPods(rt, g, "aboveS", "farAboveS", "zero")
+		f := sim.Fault{Kind: sim.ADescribeASG, Nth: rapid.IntRange(1, 3).Draw(rt, "nth"), Count: rapid.SampledFrom([]int{1, 1, 2}).Draw(rt, "count"), Code: rapid.SampledFrom(cloudErrorCodes).Draw(rt, "code")}
+		return Action{Op: "seq", Seq: []Action{tp, {Op: "fault", Faults: []sim.Fault{f}}, {Op: "scan", Flag: true},
+			{Op: "advance", D: time.Second}, tp2, {Op: "scan", Flag: true}}}, "resizeThenDescribeFails"
+	case "bigFleetAttachFails": // a fleet of more than one attach batch; a later AttachInstances call fails
+		if w.Cfg.IsFleet(g) {
+			tp, _ := w.drawTargetPods(rt, g, "need21", "need40", "need41")
+			f := sim.Fault{Kind: sim.AAttach, Nth: rapid.IntRange(1, 2).Draw(rt, "nth"), Count: 1, Code: rapid.SampledFrom(cloudErrorCodes).Draw(rt, "code")}
+			return Action{Op: "seq", Seq: []Action{tp, {Op: "fault", Faults: []sim.Fault{f}}, {Op: "scan", Flag: true}, {Op: "scan", Flag: true}}}, "bigFleetAttachFails"
+		}
+	case "bumpAfterRefresh": // a scale-up while somebody else raises the cloud group's desired capacity between escalator's read and its write
+		tp, _ := w.drawTargetPods(rt, g, "aboveS", "farAboveS", "eqS+1")
+		return Action{Op: "seq", Seq: []Action{tp, {Op: "bumpAfterRefresh", Group: g, N: rapid.IntRange(1, 4).Draw(rt, "by")}, {Op: "scan", Flag: true},
+			{Op: "reconcile", Group: g}, {Op: "register", Group: g}}}, "bumpAfterRefresh"
+	case "rebuildThenExternalResize": // a failed refresh makes escalator rebuild its provider; later somebody else resizes the cloud group; then the group needs capacity
+		asg := w.ASG(g)
+		if room := int(asg.Max - asg.Desired); room >= 2 {
+			tp, _ := w.drawTargetPods(rt, g, "eqS+1", "aboveS", "farAboveS")
+			return Action{Op: "seq", Seq: []Action{
+				{Op: "fault", Faults: []sim.Fault{{Kind: sim.ADescribeASG, Nth: 0, Count: 1, Code: rapid.SampledFrom(cloudErrorCodes).Draw(rt, "code")}}}, {Op: "scan", Flag: true},
+				{Op: "asgDesired", Group: g, N: int(asg.Desired) + rapid.IntRange(1, room-1).Draw(rt, "raisedBy")},
+				tp, {Op: "scan", Flag: true}}}, "rebuildThenExternalResize"
+		}
 	case "onlyCordonedLeft": // every node still in service is cordoned; some others may be on their way out; pods wait (or not)
 		names := w.GroupNodeNames(g)
 		if len(names) > 0 && len(names) <= 12 {
@@ -1071,11 +1112,19 @@ func (w *World) DrawAction(rt *rapid.T, p *Profile) (Action, string) {
 			n := rapid.SampledFrom(names).Draw(rt, "node")
 			seq := []Action{{Op: "drainAndForce", Group: g, Names: []string{n}},
 				{Op: "fault", Faults: []sim.Fault{{Kind: sim.KDelete, Nth: -1, Node: n}}}, {Op: "scan", Flag: true}}
-			switch rapid.SampledFrom([]string{"cordon", "cordon", "annotate", "none"}).Draw(rt, "operator") {
+			switch rapid.SampledFrom([]string{"cordon", "cordon", "annotate", "none", "untaint", "pod"}).Draw(rt, "operator") {
 			case "cordon":
 				seq = append(seq, Action{Op: "cordon", Node: n, Flag: true})
 			case "annotate":
 				seq = append(seq, Action{Op: "annotate", Node: n, Val: "keep"})
+			case "untaint": // the operator changes their mind about the node
+				seq = append(seq, Action{Op: "untaint", Node: n, Key: ref.ForceTaintKey}, Action{Op: "untaint", Node: n, Key: ref.TaintKey})
+			case "pod": // something lands on it
+				via := "selector"
+				if w.Cfg.Groups[g].Opts.Name == controller.DefaultNodeGroup {
+					via = "none"
+				}
+				seq = append(seq, Action{Op: "addPods", Group: g, Pods: []PodSpec{{Group: g, Via: via, CPU: 100, Mem: 1_000_000, Node: n, Tolerate: "all"}}})
 			}
 			seq = append(seq, Action{Op: "scan", Flag: true})
 			return Action{Op: "seq", Seq: seq}, "leftoverNode"
